@@ -63,8 +63,13 @@ func c19Pool(c *vrep.Ctx) {
 	}
 	var files []string
 	unreadable := 0
+	rot := c.ParamInt("rot", 0)         // rotates the menu: which kind of file comes first
+	allMissing := c.Param("missing", "") // "all": every file is unreadable; "most": all but the first
 	for i := 0; i < nfiles; i++ {
-		f := contents[i%len(contents)]
+		f := contents[(i+rot)%len(contents)]
+		if allMissing == "all" || (allMissing == "most" && i > 0) {
+			f = contents[1]
+		}
 		p := filepath.Join(dir, fmt.Sprintf("%d-%s", i, f.name))
 		if f.name != "missing.txt" {
 			os.WriteFile(p, []byte(f.body), 0o644)
@@ -89,7 +94,7 @@ func c19Pool(c *vrep.Ctx) {
 		}
 	}
 	sort.Strings(want)
-	if len(want) == 0 && nfiles > 0 && contents[0].name == "licensed.txt" {
+	if len(want) == 0 && nfiles > 0 && rot == 0 && allMissing == "" {
 		panic("c19_pool is vacuous: the licensed file is not matched")
 	}
 	steps := 0
